@@ -4,6 +4,7 @@
 #define REG_NEWLINE		0x08
 #define REG_NOTBOL		0x10
 #define REG_NOTEOL		0x20
+#define REG_CONT		0x40	/* the byte before the string may be examined */
 
 typedef struct {
 	long rm_so;
